@@ -104,9 +104,9 @@ func defFor(check string) *checkDef {
 	case "C06":
 		return &checkDef{property: "C06", level: "exploration",
 			budget: map[string]tierCfg{"quick": {2500, 75}, "thorough": {100000, 1500}},
-			rule: "one simulated run per seed in a merge-heavy configuration (tiers 2-3, floor 1-4, tasks of 2-10 segments, in-memory merge threshold 2-4); while a merge is between its Merge seam and its introduction the generator aims deletes/updates (including delete-all) at documents of the merging segments; after every window the monitor reader must equal the abstract index, at quiescence the reopened on-disk index too. distinct = distinct release sequences; non-trivial = background step interleaved between client operations",
+			rule: "one simulated run per seed in a merge-heavy configuration (tiers 2-3, floor 1-4, tasks of 2-10 segments, in-memory merge threshold 2-4); while a merge is between its Merge seam and its introduction, or an in-memory segment between being written out and its persist swap, the generator aims deletes/updates (including delete-all) at the documents of those segments; after every window the monitor reader must equal the abstract index, at quiescence the reopened on-disk index too. distinct = distinct release sequences; non-trivial = background step interleaved between client operations",
 			assume: commonAssume,
-			probes: []string{"delete-into-merge-window", "merge-skipped-all-deleted", "in-memory-merge", "file-merge", "merge-3plus-inputs"}}
+			probes: []string{"delete-into-merge-window", "persist-window-opened", "merge-skipped-all-deleted", "in-memory-merge", "file-merge", "merge-3plus-inputs"}}
 	}
 	return nil
 }
